@@ -103,6 +103,9 @@ class OpWorld(World):
         self.scheduled = []
         self.disposed = []
         self.specobs = []
+        self.struct = {"impl": [], "spec": []}
+        self.snaps = {"impl": [], "spec": []}
+        self.spec_subs = []
         self.cspecs = []  # (spec obj, contract, wrapper state, downstream adapter) of callee stages, in subscription order
         self.harness = None
 
@@ -110,6 +113,13 @@ class OpWorld(World):
         if name not in self.traces:
             self.traces[name] = Trace()
         return self.traces[name]
+
+    def deref(self, it, role, t):
+        """an object read back from a symbolic list of references"""
+        if role == "source":
+            return Opaque("source", it.ctx.fresh_name("queued"), term=t,
+                          lock=Opaque("lock", "queued.lock", reentrant=True))
+        return Opaque(role, it.ctx.fresh_name(role), term=t)
 
     def new_source(self, it, name):
         return Opaque("source", name, lock=Opaque("lock", f"{name}.lock", reentrant=True), _isa=("ObservableBase", "Observable"))
@@ -229,6 +239,21 @@ class OpWorld(World):
             return cur
         if k == "specobs" and method == "subscribe":
             return self.subscribe_specobs(it, o, self.norm_handlers(it, args, kwargs), kwargs)
+        if k == "observer" and method == "subscribe" and o.name == "spec_out":
+            # spec primitive: "the operator subscribes to this inner source now"
+            self.spec_subs.append(it.to_val(args[0]))
+            self.struct["spec"].append(("sub", it.to_val(args[0])))
+            if self.harness is not None and self.harness.cur_spec is not None:
+                self.snaps["spec"].append(self.harness.capture_spec(self.harness.cur_spec))
+            return None
+        if k == "observer" and method == "dispose_source" and o.name == "spec_out":
+            # spec primitive: "the subscription to source i is released now"
+            self.struct["spec"].append(("dispose-src", args[0]))
+            return None
+        if k == "observer" and method == "dispose_previous" and o.name == "spec_out":
+            # spec primitive: "the previous inner subscription is released now"
+            self.struct["spec"].append(("dispose-prev",))
+            return None
         if k == "observer":
             tr = self.trace(o.name)
             if method == "on_next":
@@ -249,10 +274,26 @@ class OpWorld(World):
             d = Opaque("disposable", f"sub:{o.name}:{len(self.subs)}")
             self.subs.append((o, hs, kwargs, d))
             self.events.append(("subscribe", o.name, d))
+            if "term" in o.attrs:
+                self.struct["impl"].append(("sub", o.attrs["term"]))
+                if self.harness is not None and getattr(self.harness, "in_handler", False):
+                    self.snaps["impl"].append(self.harness.capture_impl())
+            elif self.harness is not None and getattr(self.harness, "phase", "") == "subscribe":
+                # the source may emit synchronously from inside this call: the operator's cells must be ready
+                env = next((x.env for x in hs if isinstance(x, Closure)), None)
+                if env is not None:
+                    self.harness.cur_cells_env = env
+                    self.harness.sub_snaps.append(self.harness.capture_impl(strict=True))
             return d
         if k == "disposable" and method == "dispose":
             self.events.append(("dispose", o.name))
             self.disposed.append(o)
+            if o.name.startswith("prev_"):
+                self.struct["impl"].append(("dispose-prev",))
+            elif o.name.startswith("sub:") and self.harness is not None and getattr(self.harness, "in_handler", False):
+                srcname = o.name.split(":")[1]
+                if srcname in self.harness.c.sources and len(self.harness.c.sources) > 1:
+                    self.struct["impl"].append(("dispose-src", list(self.harness.c.sources).index(srcname)))
             return None
         if k == "logger":
             return None
@@ -320,6 +361,12 @@ def _h_is_none(it, args, kw):
     return False
 
 
+@_helper("contains")
+def _h_contains(it, args, kw):
+    r = natives.contains(it, args[0], args[1])
+    return r if isinstance(r, bool) else BoolSV(r)
+
+
 @_helper("same")
 def _h_same(it, args, kw):
     """identity/equality of terms (not py_eq)"""
@@ -383,10 +430,41 @@ def havoc_cell(it, ctx, env_or_obj, name, kind, get, set_):
         sub = kind[5:]
         if sub.startswith("opt"):
             raise Unsupported("opt cell")
-        cur.items[0] = ctx.fresh(name, sub)
+        if sub.startswith("choice:"):
+            opts = eval(sub[len("choice:"):], {})
+            cur.items[0] = opts[ctx.choose(len(opts), f"{name}_choice")]
+        else:
+            cur.items[0] = ctx.fresh(name, sub)
     elif kind.startswith("optval"):
         # None or a value: Val with NONE allowed is exactly Val
         set_(name, ctx.fresh(name, "val"))
+    elif kind.startswith("list:"):
+        # a list of fixed (concrete) length whose items are arbitrary: [False] * n, [None] * n, [[] for _ in range(n)]
+        if not (isinstance(cur, ListObj) and not cur.symbolic):
+            raise Unsupported(f"cell {name} is not a fixed-length list")
+        sub = kind[5:]
+        for i in range(len(cur.items)):
+            if sub == "seq":
+                t = ctx.fresh(f"{name}_{i}", "seq").t
+                if isinstance(cur.items[i], ListObj):
+                    cur.items[i].items, cur.items[i].term, cur.items[i].elem = None, t, "val"
+                else:
+                    cur.items[i] = ListObj(term=t)
+            elif sub == "sentinel-or-val":
+                # either still the initial (sentinel) object or a user value
+                if ctx.choose(2, f"{name}_{i}_is_sentinel") == 1:
+                    cur.items[i] = ctx.fresh(f"{name}_{i}", "val")
+            else:
+                cur.items[i] = ctx.fresh(f"{name}_{i}", sub)
+    elif kind.startswith("cell:choice:"):
+        opts = eval(kind[len("cell:choice:"):], {})
+        cur.items[0] = opts[ctx.choose(len(opts), f"{name}_choice")]
+    elif kind == "optdisp":
+        # nothing yet, or the disposable of an earlier (previous) inner subscription
+        if ctx.choose(2, f"{name}_is_none") == 0:
+            set_(name, None)
+        else:
+            set_(name, Opaque("disposable", f"prev_{name}"))
     else:
         raise Unsupported(f"cell kind {kind}")
 
@@ -428,7 +506,7 @@ class OpHarness:
         c = self.callees.get((f.module.name, f.qualname))
         if c is None:
             return NOTSET
-        if c is self.c and not self.entered:
+        if (c.file, c.func) == (self.c.file, self.c.func) and not self.entered:
             self.entered = True
             return NOTSET
         env = Env(None, f.module, f)
@@ -449,6 +527,9 @@ class OpHarness:
         w = OpWorld()
         w.harness = self
         self.entered = False
+        self.in_handler = False
+        self.cur_spec = None
+        self.cur_cells_env = None
         it = Interp(self.loader, ctx, w)
         if self.callees:
             it.call_hook = self.callee_hook
@@ -493,6 +574,14 @@ class OpHarness:
         kind = self.c.elem
         if kind == "val":
             return ctx.fresh("x", "val")
+        if kind == "source":
+            # the elements are themselves observables (merge_all, switch_latest, ...)
+            name = ctx.fresh_name("inner")
+            o = self.w.new_source(it, name)
+            t = ctx.fresh(name + "_ref", "val").t
+            ctx.assume(t != smt.NONE)
+            o.attrs["term"] = t
+            return o
         if kind == "notification":
             k = ctx.choose(3, "notification_kind")
             mod = "reactivex.notification"
@@ -538,6 +627,86 @@ class OpHarness:
         verdict = "refuted" if v == "sat" else "unknown"
         ctx.results.append(Result(oid, verdict, b, smt.model_to_dict(m), list(ctx.branch_log), detail, 0.0, kind))
 
+    def compare_subscriptions(self, it, ctx, oid, n_before):
+        """the inner sources the real code subscribed to during this step are exactly those the spec subscribes"""
+        w = self.w
+        impl, spec = w.struct["impl"], w.struct["spec"]
+        if [e[0] for e in impl] != [e[0] for e in spec]:
+            self.fail(ctx, oid + "/inner-subscriptions/order",
+                      f"real code: {[e[0] for e in impl]}, spec: {[e[0] for e in spec]} "
+                      f"(sub = subscribes an inner source, dispose-prev = unsubscribes the previous inner)")
+            return False
+        ok = True
+        for a, b in zip(impl, spec):
+            if a[0] == "sub":
+                ok &= self.record(ctx, oid + "/inner-subscriptions/same-source", a[1] == b[1])
+            elif a[0] == "dispose-src":
+                ok &= self.record(ctx, oid + "/unsubscribes-the-right-source", a[1] == b[1],
+                                  detail=f"real code releases source #{a[1]}, spec #{b[1]}")
+        # call-out discipline: a source may emit synchronously while it is being subscribed, so the coupling
+        # invariant has to hold already at every such call-out (k-th of the real code with k-th of the spec)
+        si, ss = w.snaps["impl"], w.snaps["spec"]
+        for k in range(min(len(si), len(ss))):
+            t = self.inv_at(it, ctx, si[k], ss[k])
+            ok &= self.record(ctx, oid + f"/call-out#{k}/inv-holds-when-subscribing", t, kind="inv",
+                              detail="the source being subscribed may call back synchronously: operator state must be consistent here")
+        return ok
+
+    # -- snapshots of the operator's cells / the spec state at a call-out ---------------------------
+    def capture_impl(self, strict=False):
+        snap = []
+        for n in self.c.cells:
+            found = None
+            for e in [self.cur_cells_env] + list(getattr(self, "extra_envs", [])):
+                try:
+                    found = resolve_path(self.it, e, n)
+                    break
+                except (Unsupported, KeyError):
+                    continue
+            if found is None:
+                if strict:
+                    snap.append(("missing", n))
+                continue
+            get, set_, leaf = found
+            v = get(leaf)
+            snap.append((get, set_, leaf, v, (list(v.items) if v.items is not None else None, v.term, v.elem) if isinstance(v, ListObj) else None))
+        return snap
+
+    def capture_spec(self, s):
+        return {k: ((list(v.items) if v.items is not None else None, v.term, v.elem) if isinstance(v, ListObj) else v)
+                for k, v in s.fields.items()}, s
+
+    def inv_at(self, it, ctx, isnap, ssnap):
+        saved = []
+        for get, set_, leaf, v, lst in isnap:
+            cur = get(leaf)
+            saved.append((set_, leaf, cur, (cur.items, cur.term, cur.elem) if isinstance(cur, ListObj) else None))
+            if lst is not None:
+                v.items, v.term, v.elem = (list(lst[0]) if lst[0] is not None else None), lst[1], lst[2]
+            set_(leaf, v)
+        fields, s = ssnap
+        sfields = dict(s.fields)
+        ssaved = {k: (v.items, v.term, v.elem) for k, v in s.fields.items() if isinstance(v, ListObj)}
+        for k, v in fields.items():
+            if isinstance(v, tuple) and isinstance(s.fields.get(k), ListObj):
+                o = s.fields[k]
+                o.items, o.term, o.elem = (list(v[0]) if v[0] is not None else None), v[1], v[2]
+            else:
+                s.fields[k] = v
+        try:
+            return self.check_inv(it, ctx, "", self.cur_cells_env, s)
+        finally:
+            for k, v in sfields.items():
+                s.fields[k] = v
+            for k, st in ssaved.items():
+                o = s.fields[k]
+                if isinstance(o, ListObj):
+                    o.items, o.term, o.elem = st
+            for set_, leaf, cur, lst in saved:
+                if lst is not None:
+                    cur.items, cur.term, cur.elem = lst
+                set_(leaf, cur)
+
     def compare_traces(self, ctx, oid, impl: Trace, spec: Trace):
         ok = True
         ti, ts = impl.terminal, spec.terminal
@@ -552,7 +721,19 @@ class OpHarness:
             ok &= self.record(ctx, oid + "/error-payload", ti[1] == ts[1])
         return ok
 
-    def check_inv(self, it, ctx, oid, env, s):
+    def check_inv(self, it, ctx, oid, env, s, extra=None, more=None):
+        inv_env = self.inv_env(it, env, s)
+        if extra:
+            inv_env.vars.update(extra)
+        src = self.c.inv if not more else f"({self.c.inv}) and ({more})"
+        ctx.spec += 1
+        try:
+            t = it.truth_term(self.eval_src(it, src, inv_env))
+        finally:
+            ctx.spec -= 1
+        return t
+
+    def inv_env(self, it, env, s):
         inv_env = Env(env, env.module)
         # cells that live in other closure scopes of the operator (e.g. a projection handed to a callee)
         for e in getattr(self, "extra_envs", []):
@@ -567,12 +748,7 @@ class OpHarness:
         inv_env.vars.update(self.pvals)
         for n, f in SPEC_HELPERS.items():
             inv_env.vars[n] = f
-        ctx.spec += 1
-        try:
-            t = it.truth_term(self.eval_src(it, self.c.inv, inv_env))
-        finally:
-            ctx.spec -= 1
-        return t
+        return inv_env
 
     # -- loops (cut at invariants) ------------------------------------------------------
     def on_loop(self, it, st, env, key, lc, iterable=None):
@@ -683,13 +859,26 @@ class OpHarness:
             sub = obs.fields["_subscribe"]
         else:
             raise Unsupported(f"application result is not Observable(subscribe): {obs!r}")
+        self.phase = "subscribe"
+        self.sub_snaps = []
         try:
             disp = it.call(sub, [observer, env.vars["scheduler"]], {})
         except PyExc as e:
             self.fail(ctx, f"{uid}/subscribe/no-exception", f"subscribe raised {e.value!r}")
             return None
+        finally:
+            self.phase = "handlers"
         self.spec_call(it, s, "on_subscribe", [Opaque("observer", "spec_out")])
         self.compare_traces(ctx, f"{uid}/subscribe/out", w.trace("observer"), w.trace("spec_out"))
+        for k, snap in enumerate(self.sub_snaps):
+            missing = [x[1] for x in snap if x[0] == "missing"]
+            if missing:
+                self.fail(ctx, f"{uid}/subscribe/call-out#{k}/cells-ready-when-subscribing",
+                          f"cells {missing} are only created after the source was subscribed: a source that emits "
+                          f"synchronously during subscribe would run the handlers without them")
+            elif not self.w.cspecs:
+                self.record(ctx, f"{uid}/subscribe/call-out#{k}/inv-holds-when-subscribing",
+                            self.inv_at(it, ctx, snap, self.capture_spec(s)), kind="inv")
         handlers = {}
         cells_env = None
         for (src, hs, kw, d) in w.subs:
@@ -783,8 +972,7 @@ class OpHarness:
             inv = self.check_inv(it, ctx, uid, cells_env, s)
             ctx.assume(inv if not isinstance(inv, bool) else z3.BoolVal(inv))
         # fresh traces
-        w.traces.clear()
-        w.events.clear()
+        self.begin_step(w, cells_env, s)
         if is_done:
             w.trace("observer").terminal = ("X",)
             w.trace("spec_out").terminal = ("X",)
@@ -804,7 +992,8 @@ class OpHarness:
             self.record(ctx, uid + "/after-termination/no-exception-escapes", True, kind="exc")
             return
         out = Opaque("observer", "spec_out")
-        rr = self.spec_call(it, s, hname, [out] + args)
+        idx_arg = [list(c.sources).index(source)] if len(c.sources) > 1 else []
+        rr = self.spec_call(it, s, hname, [out] + idx_arg + args)
         if rr is NOTSET:
             if slot == 1:
                 it.call(OpaqueMethod(out, "on_error"), args, {})
@@ -813,10 +1002,120 @@ class OpHarness:
             else:
                 raise Unsupported("spec lacks on_next")
         self.compare_traces(ctx, uid + "/out", w.trace("observer"), w.trace("spec_out"))
+        if c.elem == "source" or len(c.sources) > 1:
+            self.compare_subscriptions(it, ctx, uid, self.n_subs_before)
         if slot == 0:
             inv2 = self.check_inv(it, ctx, uid, cells_env, s)
             done2 = self.spec_done(it, ctx, s)
             self.record(ctx, uid + "/inv-preserved", natives.mk_or(done2, inv2), kind="inv")
+
+    def begin_step(self, w, cells_env, s):
+        """fresh observation window for one handler step"""
+        w.traces.clear()
+        w.events.clear()
+        w.spec_subs.clear()
+        w.struct = {"impl": [], "spec": []}
+        w.snaps = {"impl": [], "spec": []}
+        self.n_subs_before = len(w.subs)
+        self.cur_cells_env = cells_env
+        self.cur_spec = s
+        self.in_handler = True
+
+    def run_family_handler(self, ctx, fam, slot):
+        """a handler of a per-element family (inner subscription): created by one outer on_next from an arbitrary
+        state, then run from an arbitrary LATER state in which that member is still live"""
+        c = self.c
+        F = c.families[fam]
+        r = self.run_subscribe(ctx)
+        ctx.results.clear()
+        if r is None:
+            raise PathEnd()
+        it, w, cells_env, s, handlers = r
+        outer = handlers.get(c.sources[0])
+        if outer is None or outer[0] is None:
+            raise PathEnd()
+        hname = ("on_next", "on_error", "on_completed")[slot]
+        uid = f"{c.uid}/{fam}.{hname}"
+        # --- creation step from an arbitrary state
+        self.havoc(it, ctx, cells_env, s)
+        done = self.spec_done(it, ctx, s)
+        if done if isinstance(done, bool) else ctx.branch(done, "already-terminated (creation)"):
+            raise PathEnd()
+        inv = self.check_inv(it, ctx, uid, cells_env, s)
+        ctx.assume(inv if not isinstance(inv, bool) else z3.BoolVal(inv))
+        inner = self.make_element(it, ctx)
+        n0 = len(w.subs)
+        w.spec_subs.clear()
+        try:
+            it.call(outer[0], [inner], {})
+        except PyExc:
+            raise PathEnd()
+        self.spec_call(it, s, "on_next", [Opaque("observer", "spec_out"), inner])
+        member = None
+        for (src, hs, kw, d) in w.subs[n0:]:
+            if src is inner:
+                member = hs
+        if member is None:
+            raise PathEnd()  # not subscribed on this path (e.g. queued)
+        h = member[slot]
+        ctx.spec += 1
+        k = self.eval_src(it, F["id"], self.inv_env(it, cells_env, s)) if F.get("id") else None
+        ctx.spec -= 1
+        modname = c.file[:-3].replace("/", ".")
+
+        def own_env(hd, depth=0):
+            """the operator's own closure scope behind a handler (looking through synchronized(...) wrappers)"""
+            if isinstance(hd, Closure) and depth < 4:
+                if hd.module is not None and hd.module.name == modname:
+                    return hd.env
+                e = hd.env
+                while e is not None:
+                    if "fn" in e.vars:
+                        r = own_env(e.vars["fn"], depth + 1)
+                        if r is not None:
+                            return r
+                    e = e.parent
+            return None
+        member_env = next((e for e in (own_env(x) for x in member) if e is not None), cells_env)
+        # --- an arbitrary later state in which this member is live
+        self.havoc(it, ctx, cells_env, s)
+        done = self.spec_done(it, ctx, s)
+        is_done = done if isinstance(done, bool) else ctx.branch(done, "already-terminated")
+        extra = {"k": k, "inner": inner}
+        if not is_done:
+            inv = self.check_inv(it, ctx, uid, member_env, s, extra=extra, more=F.get("inv"))
+            ctx.assume(inv if not isinstance(inv, bool) else z3.BoolVal(inv))
+        self.begin_step(w, cells_env, s)
+        if is_done:
+            w.trace("observer").terminal = ("X",)
+        args = []
+        if slot == 0:
+            args = [ctx.fresh("x", "val")]
+        elif slot == 1:
+            args = [SV(ctx.fresh("err", "val").t, "val", tag="exc")]
+        if h is None:
+            raise PathEnd()
+        try:
+            it.call(h, args, {})
+        except PyExc as e:
+            self.fail(ctx, uid + "/no-exception-escapes", f"exception escapes the handler: {e.value!r}", kind="exc")
+            return
+        if is_done:
+            self.record(ctx, uid + "/after-termination/no-exception-escapes", True, kind="exc")
+            return
+        out = Opaque("observer", "spec_out")
+        sargs = [out] + ([k] if k is not None else []) + args
+        if self.spec_call(it, s, F["spec"][slot], sargs) is NOTSET:
+            raise Unsupported(f"spec lacks {F['spec'][slot]}")
+        self.compare_traces(ctx, uid + "/out", w.trace("observer"), w.trace("spec_out"))
+        self.compare_subscriptions(it, ctx, uid, self.n_subs_before)
+        # the member stays live only after an element; the global invariant must hold in any case
+        inv2 = self.check_inv(it, ctx, uid, cells_env, s)
+        done2 = self.spec_done(it, ctx, s)
+        self.record(ctx, uid + "/inv-preserved", natives.mk_or(done2, inv2), kind="inv")
+        if slot == 0 and F.get("inv"):
+            inv3 = self.check_inv(it, ctx, uid, member_env, s, extra=extra, more=F.get("inv"))
+            self.record(ctx, uid + "/member-inv-preserved", natives.mk_or(done2, inv3), kind="inv")
 
     # -- driver -------------------------------------------------------------------------
     def run(self):
@@ -834,6 +1133,10 @@ class OpHarness:
             for (src, slot) in sorted(slots):
                 paths = explore(lambda ctx, _s=src, _k=slot: self.run_handler(ctx, _s, _k))
                 self._collect(paths)
+            for fam in c.families:
+                for slot in (0, 1, 2):
+                    paths = explore(lambda ctx, _f=fam, _k=slot: self.run_family_handler(ctx, _f, _k))
+                    self._collect(paths)
         except Unsupported as e:
             self.unsupported = f"{e}"
         except PyExc as e:
